@@ -49,6 +49,11 @@ def ordinal_def(y, m, d):
     return OM(tidx(y, m)) + d - 1
 
 
+def iso_key(y, m, d):
+    """order embedding of the ISO text YYYY-MM-DD (4-digit years)"""
+    return y * 10000 + m * 100 + d
+
+
 def lex_lt(a, b):
     return z3.Or(a[0] < b[0], z3.And(a[0] == b[0], z3.Or(a[1] < b[1], z3.And(a[1] == b[1], a[2] < b[2]))))
 
@@ -116,7 +121,8 @@ def _ordpair(a, b):
         ta = (a.arg(0), a.arg(1), a.arg(2))
         tb = (b.arg(0), b.arg(1), b.arg(2))
         f = z3.Implies(z3.And(valid(*ta), valid(*tb)),
-                       z3.And(lex_lt(ta, tb) == (a < b), lex_lt(tb, ta) == (b < a)))
+                       z3.And(lex_lt(ta, tb) == (a < b), lex_lt(tb, ta) == (b < a),
+                              (iso_key(*ta) < iso_key(*tb)) == (a < b), (iso_key(*tb) < iso_key(*ta)) == (b < a)))
         r = (a, b, f)
         _ordpair_cache[k] = r
     return r[2]
@@ -240,6 +246,8 @@ def lemma_library():
     L.append(("cal.lex_order_is_ordinal_order", inst + [vd(*A), vd(*Bt)],
               z3.And(lex_lt(A, Bt) == (ordinal_def(*A) < ordinal_def(*Bt)),
                      lex_lt(Bt, A) == (ordinal_def(*Bt) < ordinal_def(*A)))))
+    L.append(("cal.iso_key_order_is_lex_order", [vd(*A), vd(*Bt), DIM(ta) <= 31, DIM(tb) <= 31],
+              lex_lt(A, Bt) == (iso_key(*A) < iso_key(*Bt))))
     # epoch anchor: 1970-01 is month index 23640 and has ordinal 0
     L.append(("cal.epoch", [], om_closed(z3.IntVal(12 * 1970)) == 0))
     return L
